@@ -221,6 +221,29 @@ func TestC19S(t *testing.T) {
 		"token 0 is never presented; outcomes of calls overlapping the expiry instant are accepted either way (counted as boundary)")
 	opn := newOpener(t)
 
+	// stress tier: the late Release of a run-out grant against another party's Acquire, issued
+	// at the same instant
+	for _, b := range allBackends {
+		trials := map[string]int{beMemory: ev.Pick(150000, 1000000), beAOF: ev.Pick(4000, 40000), beSqlite: ev.Pick(1500, 15000)}[b]
+		s := opn.open(b, chord.Hash)
+		p, replay, done, both := lateReleaseVsAcquire(s.kv, b, trials)
+		s.destroy()
+		rec.Add("late_release_vs_acquire_trials_"+b, int64(done))
+		rec.Add("late_release_vs_acquire_both_succeeded_"+b, int64(both))
+		switch {
+		case p != "" && len(p) > 13 && p[:13] == "precondition:":
+			rec.Inconclusive("stress-precondition")
+			t.Logf("late-release stress (%s): %s", b, p)
+		case p != "":
+			rec.Fail(t, b+"-held-lease-lost-to-late-release", replay, "%s", p)
+		default:
+			bb, d := b, done
+			rec.Case(true, "stress:late-release-vs-acquire:"+bb, func() any {
+				return map[string]any{"scenario": "late Release of a run-out grant and another party's Acquire at the same instant; store must show the acquirer's token, a third Acquire must be refused", "backend": bb, "trials": d}
+			}, "stress:late-release-vs-acquire")
+		}
+	}
+
 	n := ev.N(288, 4800)
 	inflight := 96
 	type result struct {
